@@ -438,3 +438,39 @@ class C05(Monitor):
             if g - g0 > 0:
                 ctx.count(f"c05_steps_with_{et.name.lower()}_flow")
         ctx.count("c05_states_checked")
+        if ctx.k % 40 == 39:
+            self._summary(ctx)
+
+    def _summary(self, ctx):
+        """the totals of the compiled summary (polled during the run as well as at its end) are the ledger's totals"""
+        import contextlib
+        import io
+
+        from nrel.hive.model.energy.energytype import EnergyType
+
+        try:
+            with contextlib.redirect_stdout(io.StringIO()):
+                summ = ctx.rp.e.reporter.get_summary_stats(ctx.rp)
+        except Exception as e:
+            ctx.violate("C05", f"summary-raises-{type(e).__name__}", f"compiling the summary raised {type(e).__name__}: {e}")
+            return
+        if not summ:
+            return
+        s = ctx.s
+        ctx.count("c05_summaries_compiled")
+        want = {
+            "total_kwh_dispensed": sum(x.energy_dispensed.get(EnergyType.ELECTRIC, 0.0) for x in s.stations.values()),
+            "total_gge_dispensed": sum(x.energy_dispensed.get(EnergyType.GASOLINE, 0.0) for x in s.stations.values()),
+            "station_revenue_dollars": sum(x.balance for x in s.stations.values()),
+            "fleet_revenue_dollars": sum(v.balance for v in s.vehicles.values()),
+        }
+        for k, w in want.items():
+            got = summ.get(k)
+            if got is None:
+                continue
+            if abs(float(got) - w) > 1e-9 * max(1.0, abs(w)):
+                ctx.violate("C05", f"summary-{k.replace('_', '-')}-differs-from-ledger", f"summary says {k} = {got}, stations / vehicles hold {w} (summary compiled {ctx.counters.get('c05_summaries_compiled', 0)} times so far)")
+
+    def finish(self, ctx):
+        self._summary(ctx)
+        self._summary(ctx)
